@@ -159,7 +159,7 @@ def direct_parse(frame: bytes, opts):
             return "ok", NMEAReader.parse(frame, validate=opts.get("validate", 1),
                                           msgmode=opts.get("msgmode", 0))
         if p == 4:
-            return "ok", RTCMReader.parse(frame, validate=opts.get("validate", 1), labelmsm=1)
+            return "ok", RTCMReader.parse(frame, validate=opts.get("validate", 1), labelmsm=opts.get("labelmsm", 1))
     except Exception as err:  # noqa
         return ("rej" if is_protocol_error(err) else "foreign"), err
     return "rej", ValueError("no protocol")
@@ -208,6 +208,8 @@ def mk_reader(stream, opts, handler=None):
               parsebitfield=opts.get("parsebitfield", 1), parsing=opts.get("parsing", True))
     if "bufsize" in opts:
         kw["bufsize"] = opts["bufsize"]
+    if "labelmsm" in opts:
+        kw["labelmsm"] = opts["labelmsm"]
     if handler is not None:
         kw["errorhandler"] = handler
     return pyubx2.UBXReader(stream, **kw)
